@@ -157,7 +157,11 @@ def gen_cond(env):
     if env.vocab == 'core':
         return R.Bin('>', R.Var(env.vars[0]), env.num('val'))
     v = R.Var(ch.pick(env.vars))
-    op = ch.pick(['>', '<', '>=', '==', '!='], [3, 3, 1, 1, 1])
+    op = ch.pick(['>', '<', '>=', '==', '!=', 'number', 'difference'], [3, 3, 1, 1, 1, 1, 1])
+    if op == 'number':
+        return v                     # a number as a condition: false when zero, true otherwise
+    if op == 'difference':
+        return R.Bin('-', v, env.num('int'))
     return R.Bin(op, v, env.num('val'))
 
 
@@ -675,6 +679,9 @@ def addressing_program(h, w, zones=8):
         def bound(lo, hi):
             n = env.num('cell')
             doms[n.sid] = ('int', lo, hi)
+            if ch.flag(0.12):
+                # an integral value that Python computes as a float ({n * 2 / 2}): still a valid row, column or zone number
+                return R.Bin('/', R.Bin('*', n, N(value=2)), N(value=2))
             return n
         mode = ch.pick(['logical', 'raw', 'rgb'], [3, 2, 1])
         stmts = []
